@@ -125,11 +125,17 @@ theorem for3_spec (z : Nat) (m : Hmm) (hS : 0 < m.S) (i o : Nat) (hi : 0 < i) (v
           = Res.ok (v.set i (vr.set c (ix prev a * m.trans a c * m.emit c o)), f.set i (fr.set c a)) := by
       first
         | (obtain ⟨a, ha, hmx, hub⟩ := hfwd
-           exact ⟨a, ha, hub, by simp [viterbi_matrices_for3, e1, hrow, hmx, map2_eq, hs1, hs2]⟩)
+           refine ⟨a, ha, hub, ?_⟩
+           simp [viterbi_matrices_for3, e1, hrow, hmx, map2_eq, hs1, hs2]
+           done)
         | (obtain ⟨a, ha, hmx, hub⟩ := hrev
-           exact ⟨a, ha, hub, by simp [viterbi_matrices_for3, e1, hrow, hmx, map2_eq, hs1, hs2]⟩)
+           refine ⟨a, ha, hub, ?_⟩
+           simp [viterbi_matrices_for3, e1, hrow, hmx, map2_eq, hs1, hs2]
+           done)
         | (obtain ⟨a, ha, hmx, hub⟩ := hrev'
-           exact ⟨a, ha, hub, by simp [viterbi_matrices_for3, e1, hrow, hmx, map2_eq, hs1, hs2]⟩)
+           refine ⟨a, ha, hub, ?_⟩
+           simp [viterbi_matrices_for3, e1, hrow, hmx, map2_eq, hs1, hs2]
+           done)
     obtain ⟨a, ha, hub, hx⟩ := hx
     have hiv : i < v.length := lt_of_getElem?_eq_some hvr
     have hif : i < f.length := lt_of_getElem?_eq_some hfr
@@ -316,9 +322,13 @@ theorem traceback_spec_src (z : Nat) (m : Hmm) (hS : 0 < m.S) (vals from_ : List
           viterbi_traceback_for1 (natOps z) (hmmOps m) from_ vals.length ([], 0, 0) (0, b) = Res.ok ([kL], kL, ix b kL) := by
         first
           | (obtain ⟨kL, hk, hmx, hub⟩ := hfwd
-             exact ⟨kL, hk, hub, by simp [viterbi_traceback_for1, hmx]⟩)
+             refine ⟨kL, hk, hub, ?_⟩
+             simp [viterbi_traceback_for1, hmx]
+             done)
           | (obtain ⟨kL, hk, hmx, hub⟩ := hrev
-             exact ⟨kL, hk, hub, by simp [viterbi_traceback_for1, hmx]⟩)
+             refine ⟨kL, hk, hub, ?_⟩
+             simp [viterbi_traceback_for1, hmx]
+             done)
       obtain ⟨kL, hk, hub, hx⟩ := hx
       refine ⟨_, hx, fun h => absurd h (by omega), fun _ => ⟨kL, hk, hub, rfl, hk, ?_, ?_⟩⟩
       · have : mats.drop (vals.length - (0 + 1)) = [] := List.drop_eq_nil_of_le (by omega)
